@@ -1161,3 +1161,197 @@ Theorem returns_nil_only fr inner_ok :
   returns_nil (view_of inner_ok (read_msg fr)) = true ->
   (exists d, read_msg fr = RData d) \/ read_msg fr = ROkNoData.
 Proof. destruct (read_msg fr) eqn:E; cbn; intros H; try discriminate; [left; eexists; reflexivity|right; reflexivity]. Qed.
+
+(* ---------------------------------------------------------------------------------------- *)
+(* the checker accepts every case whose observation agrees with the model: the other case kinds *)
+From Coq Require Import Permutation.
+
+(* chunking by a cycled pattern loses nothing *)
+Lemma chunk_cycle_concat fuel : forall pat cur l, concat (chunk_cycle fuel pat cur l) = l.
+Proof.
+  induction fuel as [|k IH]; intros pat cur l; cbn [chunk_cycle concat]; [apply app_nil_r|].
+  destruct l as [|b l]; [reflexivity|].
+  destruct cur as [|c cur'].
+  - destruct pat as [|p pat']; [cbn [concat]; apply app_nil_r|apply IH].
+  - cbn [concat]. rewrite IH. apply firstn_skipn.
+Qed.
+
+Lemma chunks_of_concat pat l : concat (chunks_of pat l) = l.
+Proof. apply chunk_cycle_concat. Qed.
+
+Lemma reads_agree_no_frame_clause hdrs e frames : forall rops os,
+  reads_agree hdrs e frames rops os = true -> frame_clauses frames rops os = [].
+Proof.
+  induction frames as [|fr frames IH]; intros rops os H; [reflexivity|].
+  destruct rops as [|op rops]; [discriminate|]. destruct os as [|o os]; [discriminate|].
+  cbn [reads_agree] in H. apply andb_prop in H. destruct H as [Ha Hr].
+  cbn [frame_clauses]. rewrite (IH _ _ Hr), app_nil_r.
+  unfold frame_clause. destruct (op =? 0) eqn:E; [|reflexivity].
+  apply N.eqb_eq in E. subst op. cbn [N.eqb] in Ha.
+  pose proof (agreeing_read_no_frame_violation fr o Ha) as Hv. unfold frame_clause in Hv. cbn [N.eqb] in Hv. exact Hv.
+Qed.
+
+(* sessions that are not honest round trips (hostile streams, mixed read kinds) *)
+Theorem checker_accepts_agreeing_dishonest wops wseen stream pat rops rseen hdrs typed_ok :
+  agrees (Session false wops wseen stream pat rops rseen hdrs typed_ok) = true ->
+  violation (Session false wops wseen stream pat rops rseen hdrs typed_ok) = [].
+Proof.
+  cbn [agrees violation]. intros H. apply andb_prop in H. destruct H as [_ Hr].
+  rewrite app_nil_r.
+  destruct (chunking (chunks_of pat (session_stream wseen stream))) as (Ho & _ & _).
+  rewrite chunks_of_concat in Ho. rewrite <- Ho.
+  eapply reads_agree_no_frame_clause. exact Hr.
+Qed.
+
+(* end-to-end handler errors *)
+Theorem checker_accepts_agreeing_e2e e o :
+  agrees (E2E e o) = true -> violation (E2E e o) = [].
+Proof.
+  cbn [agrees violation]. unfold e2e_expect. destruct e as [h|]; [|reflexivity].
+  destruct (status_marshal_ok (status_of_herr h)); [|reflexivity].
+  destruct (st_code (status_of_herr h) =? 0)%Z; [reflexivity|]. cbn [negb andb].
+  destruct o; try discriminate. intros ->. reflexivity.
+Qed.
+
+(* near-limit frames; the model predicts equal payloads (req = true) *)
+Theorem checker_accepts_agreeing_big n whead wlen racc rlen :
+  agrees (Big n whead wlen racc rlen true) = true -> violation (Big n whead wlen racc rlen true) = [].
+Proof.
+  cbn [agrees violation]. intros H.
+  apply andb_prop in H. destruct H as [H Hl]. apply andb_prop in H. destruct H as [_ Hacc].
+  apply Bool.eqb_prop in Hacc. subst racc.
+  destruct (data_frame_accepted n); [|reflexivity]. rewrite Hl. reflexivity.
+Qed.
+
+(* writes behind a stalled peer *)
+Lemma remove_one_spec y : forall b b', remove_one y b = Some b' ->
+  exists l1 l2, b = l1 ++ y :: l2 /\ b' = l1 ++ l2.
+Proof.
+  induction b as [|z b IH]; intros b' H; [discriminate|]. cbn [remove_one] in H.
+  destruct (bytes_eqb y z) eqn:E.
+  - apply bytes_eqb_eq in E. subst z. injection H as <-. exists [], b. split; reflexivity.
+  - destruct (remove_one y b) as [r|] eqn:Er; [|discriminate]. injection H as <-.
+    destruct (IH r eq_refl) as (l1 & l2 & -> & ->). exists (z :: l1), l2. split; reflexivity.
+Qed.
+
+Lemma perm_b_sound a : forall b, perm_b a b = true -> Permutation a b.
+Proof.
+  induction a as [|y a IH]; intros b H; cbn [perm_b] in H.
+  - destruct b; [constructor|discriminate].
+  - destruct (remove_one y b) as [b'|] eqn:E; [|discriminate].
+    destruct (remove_one_spec y b b' E) as (l1 & l2 & -> & ->).
+    apply Permutation_cons_app. apply IH. exact H.
+Qed.
+
+Lemma count_b_perm x a b : Permutation a b -> count_b x a = count_b x b.
+Proof. induction 1; cbn [count_b]; lia. Qed.
+
+Lemma count_b_in x l : In x l -> (1 <= count_b x l)%nat.
+Proof.
+  induction l as [|y l IH]; intros H; [destruct H|]. cbn [count_b].
+  destruct H as [->|H]; [rewrite bytes_eqb_refl; lia|]. specialize (IH H). lia.
+Qed.
+
+Theorem checker_accepts_agreeing_stalled inners calls wire :
+  Forall (fun i => len_of (data_body i) <= max_msg) inners ->
+  agrees (StalledWrites inners calls wire) = true -> violation (StalledWrites inners calls wire) = [].
+Proof.
+  intros W H. cbn [agrees] in H.
+  apply andb_prop in H. destruct H as [H _]. apply andb_prop in H. destruct H as [_ Hp].
+  apply perm_b_sound in Hp.
+  assert (Hp' : Permutation wire (map frame (map data_body inners))).
+  { rewrite map_map. symmetry. exact Hp. }
+  destruct (Permutation_map_inv _ _ Hp') as (bs & -> & Hpb).
+  assert (Wb : Forall (fun b => len_of b <= max_msg) bs).
+  { apply Forall_forall. intros b Hin. apply (Permutation_in _ (Permutation_sym Hpb)) in Hin.
+    apply in_map_iff in Hin. destruct Hin as (i & <- & Hin). rewrite Forall_forall in W. apply W. exact Hin. }
+  cbn [violation]. fold (frames_of bs). rewrite feed_all_frames by exact Wb. cbn [out].
+  assert (E1 : forallb (fun f => Nat.leb 1 (count_b f (map data_body inners)) &&
+                                 Nat.leb (count_b f bs) (count_b f (map data_body inners))) bs = true).
+  { apply forallb_forall. intros f Hin. apply andb_true_intro. split; apply Nat.leb_le.
+    - apply count_b_in. apply (Permutation_in _ (Permutation_sym Hpb)). exact Hin.
+    - rewrite (count_b_perm f _ _ Hpb). lia. }
+  assert (E2 : forallb (fun b => Nat.leb 1 (count_b b bs))
+                 (flat_map (fun ic => if snd ic =? 0 then [data_body (fst ic)] else []) (combine inners calls)) = true).
+  { apply forallb_forall. intros b Hin. apply Nat.leb_le. apply count_b_in.
+    apply (Permutation_in _ Hpb). apply in_flat_map in Hin. destruct Hin as ([i c] & Hic & Hb).
+    cbn [fst snd] in Hb. destruct (c =? 0); [|destruct Hb]. destruct Hb as [<-|[]].
+    apply in_map. eapply in_combine_l. exact Hic. }
+  rewrite E1, E2. reflexivity.
+Qed.
+
+(* abandoned reads: inner payloads as protobuf-go marshals them (their unknown-field image is
+   themselves) and within the size limit *)
+Definition canonical_inner (i : bytes) : Prop := unknown_of i = TOk i /\ len_of (data_body i) <= max_msg.
+
+Lemma all2_abandon inners : Forall canonical_inner inners -> forall got,
+  all2 readmsg_agrees (map data_body inners) got = true ->
+  all2 (fun i o => match o with OData u => bytes_eqb u i | _ => false end) inners got = true.
+Proof.
+  induction 1 as [|i inners [Hc Hl] _ IH]; intros got H; destruct got as [|o got]; try discriminate; [reflexivity|].
+  cbn [map all2] in *. apply andb_prop in H. destruct H as [Ha Hr]. rewrite (IH _ Hr), andb_true_r.
+  unfold readmsg_agrees, data_body in Ha. rewrite read_msg_data in Ha by exact Hl. rewrite Hc in Ha.
+  destruct o; try discriminate. apply bytes_eqb_eq in Ha. subst. apply bytes_eqb_refl.
+Qed.
+
+Theorem checker_accepts_agreeing_abandon inners reqs got :
+  Forall canonical_inner inners ->
+  agrees (Abandon inners reqs got) = true -> violation (Abandon inners reqs got) = [].
+Proof.
+  intros W H. cbn [agrees violation] in *. apply andb_prop in H. destruct H as [Hl Ha].
+  destruct (no_abandon (map req_of reqs)) eqn:Hn; [|reflexivity].
+  apply Nat.eqb_eq in Hl.
+  rewrite serve_no_abandon in Ha; [|exact Hn|rewrite !map_length; symmetry; exact Hl].
+  cbn [fst] in Ha. rewrite (all2_abandon inners W got Ha). reflexivity.
+Qed.
+
+(* all of it at the level of [violations]: a list of cases of these kinds, each agreeing with the
+   model, is reported clean.  Honest sessions are covered by [checker_accepts_model] in the form
+   the model itself produces them. *)
+Definition covered (c : cbody) : Prop :=
+  match c with
+  | Session honest _ _ _ _ _ _ _ _ => honest = false
+  | Big _ _ _ _ _ req => req = true
+  | E2E _ _ => True
+  | Abandon inners _ _ => Forall canonical_inner inners
+  | StalledWrites inners _ _ => Forall (fun i => len_of (data_body i) <= max_msg) inners
+  end.
+
+Theorem agreeing_case_no_violation c : covered c -> agrees c = true -> violation c = [].
+Proof.
+  destruct c as [honest wops wseen stream pat rops rseen hdrs typed_ok|n whead wlen racc rlen req|e o|inners reqs got|inners calls wire];
+    cbn [covered]; intros Hc Ha.
+  - subst honest. apply checker_accepts_agreeing_dishonest. exact Ha.
+  - subst req. apply checker_accepts_agreeing_big. exact Ha.
+  - apply checker_accepts_agreeing_e2e. exact Ha.
+  - apply checker_accepts_agreeing_abandon; assumption.
+  - apply checker_accepts_agreeing_stalled; assumption.
+Qed.
+
+Theorem violations_silent_on_agreeing cs :
+  Forall (fun c => covered (cb c)) cs -> mismatches cs = [] -> violations cs = [].
+Proof.
+  unfold mismatches, violations. induction 1 as [|c cs Hc _ IH]; intros Hm; [reflexivity|].
+  cbn [filter map flat_map] in *.
+  destruct (agrees (cb c)) eqn:Ea; cbn [negb] in Hm; [|discriminate].
+  rewrite (agreeing_case_no_violation _ Hc Ea). cbn [app]. apply IH. exact Hm.
+Qed.
+
+(* non-vacuity: concrete agreeing cases of every covered kind *)
+Example ex_covered_cases :
+  let cs := [
+    {| id := 0; cb := Session false [] [] (Some (x "000000021807" ++ x "0000000a120808021204626f6f6d")) [3] [0; 0; 0]
+                        [OReject; OStatus 2 (x "626f6f6d") []; OEOF] [] true |};
+    {| id := 1; cb := Big 8388603 (x "008000000afbffff03") 8388612 true 8388603 true |};
+    {| id := 2; cb := Big 8388604 (x "008000010afcffff03") 8388613 false 0 true |};
+    {| id := 3; cb := E2E (Some (HPlain (x "626f6f6d"))) (OStatus 2 (x "626f6f6d") []) |};
+    {| id := 4; cb := E2E None OEOF |};
+    {| id := 5; cb := Abandon [x "0a016f"; x "0a0174"] [1; 0] [OData (x "0a0174")] |};
+    {| id := 6; cb := Abandon [x "0a016f"; x "0a0174"] [0; 0] [OData (x "0a016f"); OData (x "0a0174")] |};
+    {| id := 7; cb := StalledWrites [x "0a016f"; x "0a0174"; x "0a0175"] [1; 1; 0]
+                        [x "000000050a030a016f"; x "000000050a030a0175"; x "000000050a030a0174"] |} ] in
+  Forall (fun c => covered (cb c)) cs /\ mismatches cs = [] /\ violations cs = [].
+Proof.
+  cbv zeta. split; [|split; vm_compute; reflexivity].
+  repeat constructor; try (vm_compute; congruence).
+Qed.
